@@ -229,8 +229,26 @@ def snippet_case(chk, sn):
     return out
 
 
+def finding_repro_case(chk):
+    """hand-built reproducer of the recorded finding hole-before-anonymous-member (kept so that the finding is re-observed on every run)"""
+    m = G.Model()
+    r = G.Record("struct", "HA")
+    u = G.Record("union", None)
+    u.fields = [G.Field("m8", G.Array(G.Scalar("unsigned char", "int", False, 8), [6])), G.Field("m9", G.Array(G.Scalar("float", "float", True, 32), [2]))]
+    r.fields = [G.Field("m6", G.Scalar("unsigned char", "int", False, 8)), G.Field(None, G.Scalar("unsigned long long", "int", False, 64), bits=0), G.Field(None, None, inline=u)]
+    m.records.append(r)
+    m.decls.append(r)
+    hp = htypes.HeaderProbe(chk.dir("repro-ha"), m)
+    res = hp.run_optset("r", [])
+    probs = [p for p in htypes.classify(res, "r", m) if p[0] == "violation"]
+    if probs:
+        return Verdict(VIOLATED, "repro-hole-before-anonymous-member", "\n".join(p[1] for p in probs[:4]), files=dict(hp.files()), signature=probs[0][2])
+    return Verdict(HELD, "repro-hole-before-anonymous-member", obs=res.get("obs") or {})
+
+
 def run(chk):
     from .. import hostile
+    chk.add(finding_repro_case(chk))
     sn = [s_ for s_ in hostile.C if s_[0] in LAYOUT_SNIPPETS]
     chk.map(lambda s_: snippet_case(chk, s_), sn, budget_s=600)
     chk.map(lambda i: cxx_case(chk, i), range(chk.pick(40, 400)), budget_s=chk.pick(200, 1200))
